@@ -26,6 +26,7 @@ type vdMsg struct {
 	Spin    int           // busy work inside the handler (Gosched calls)
 	Entered chan struct{} // closed when the handler has been entered (optional)
 	Block   chan struct{} // the handler waits for this channel to be closed (optional)
+	Stop    bool          // the handler calls ctx.Shutdown() before returning
 }
 
 // vdRecorder is the property oracle of one actor: overlap of handler invocations and the
@@ -109,6 +110,9 @@ func (a *vdActor) Receive(ctx *ReceiveContext) {
 		}
 		if m.Block != nil {
 			<-m.Block
+		}
+		if m.Stop {
+			ctx.Shutdown()
 		}
 		a.rec.exit()
 	default:
